@@ -129,6 +129,8 @@ def check_written(ctx, prog, text, vtk=None):
     # geometry
     geo = top.get("geometry", {})
     ctx.prove("geometry-section-has-the-declared-geometries", set(prog.geometry) <= set(geo))
+    if getattr(prog, "exact_geometry", False):
+        ctx.prove("geometry-section-has-no-undeclared-geometry", set(geo) == set(prog.geometry), written=sorted(geo), declared=sorted(prog.geometry))
     used = {g for v in vs for g in (v[3] or [])} | {g for _, g in got_faces} | {g for e in F.edges(top) if e["kind"] == "project" for g in e["data"]}
     ctx.prove("every-geometry-projected-to-is-defined", used <= set(geo), used=sorted(used), defined=sorted(geo))
     # edges refer to existing vertices that form a block edge
@@ -140,7 +142,7 @@ def check_written(ctx, prog, text, vtk=None):
         ip = [i for i, l in enumerate(lines) if l.startswith("POINTS")][0]
         n = int(lines[ip].split()[1])
         pts = [list(map(float, l.split())) for l in lines[ip + 1: ip + 1 + n]]
-        ctx.prove("vtk-lists-the-same-points", n == len(vs) and all(np.allclose(p, np.asarray(mesh.vertices[i].position, dtype=float), atol=1e-6, rtol=1e-6) for i, p in enumerate(pts)))
+        ctx.prove("vtk-lists-the-same-points", n == len(vs) and all(np.allclose(p, np.asarray(mesh.vertices[i].position, dtype=float), atol=1e-12, rtol=1e-12) for i, p in enumerate(pts)))
         ic = [i for i, l in enumerate(lines) if l.startswith("CELLS")][0]
         nc = int(lines[ic].split()[1])
         cells = [[int(t) for t in l.split()] for l in lines[ic + 1: ic + 1 + nc]]
@@ -371,3 +373,45 @@ def reassembled(ctx):
     prog = _Prog(mesh, ops, declared=declared, deleted=[victim])
     prog.geometry = geo
     check_written(ctx, prog, text)
+
+
+@proof("C06", "scripts/geometry-dictionaries-are-the-callers", cases=["two-meshes-one-dictionary", "dictionary-reused-after-more-geometry"], level="S", samples=1,
+       functions=["classy_blocks.lists.geometry_list:GeometryList.add", "classy_blocks.mesh:Mesh.add_geometry", "classy_blocks.lists.geometry_list:GeometryList.description"],
+       note="a geometry dictionary given to one mesh, more geometry added to that mesh, the same dictionary given to a second mesh: each file "
+            "lists exactly what was declared for its mesh and the caller's dictionary is as the caller wrote it")
+def geometry_dictionaries(ctx):
+    import classy_blocks as cb
+
+    plane = lambda z: ["type plane", "planeType pointAndNormal", f"point (0 0 {z})", "normal (0 0 1)"]
+    mine = {"floor": plane(0)}
+    snapshot = {k: list(v) for k, v in mine.items()}
+
+    def one_box(mesh, geo):
+        box = cb.Box([0.0, 0.0, 0.0], [1.0, 1.0, 1.0])
+        for ax in range(3):
+            box.chop(ax, count=2)
+        box.project_side("bottom", geo)
+        mesh.add(box)
+        return box
+
+    first = Mesh()
+    b1 = one_box(first, "floor")
+    first.add_geometry(mine)
+    first.add_geometry({"roof": plane(1)})
+    if ctx.case == "dictionary-reused-after-more-geometry":
+        first.add_geometry({"wall": plane(2)})
+    text1, _ = write_text(first)
+    ctx.prove("callers-dictionary-untouched", mine == snapshot, now=sorted(mine))
+    second = Mesh()
+    b2 = one_box(second, "floor")
+    second.add_geometry(mine)
+    text2, _ = write_text(second)
+    p1 = _Prog(first, [b1])
+    p1.geometry = {"floor": plane(0), "roof": plane(1), **({"wall": plane(2)} if ctx.case == "dictionary-reused-after-more-geometry" else {})}
+    p1.exact_geometry = True
+    check_written(ctx, p1, text1)
+    p2 = _Prog(second, [b2])
+    p2.geometry = {"floor": plane(0)}
+    p2.exact_geometry = True
+    check_written(ctx, p2, text2)
+    ctx.prove("callers-dictionary-untouched-at-the-end", mine == snapshot, now=sorted(mine))
